@@ -778,7 +778,7 @@ def _gen_init(rng, knobs):
         else:
             spec = music.gen_music(rng, max_notes=knobs["max_notes"], channels=knobs["channels"], horizon=knobs["horizon"],
                                    pitches=knobs["pitches"])
-            init.append({"spec": spec, "mode": rng.choice(MODES)})
+            init.append({"spec": spec, "mode": rng.choice(MODES) if rng.random() < 0.9 else f"insert:{rng.randrange(1, 1 << 20)}"})
     return init
 
 
